@@ -402,6 +402,20 @@ let () =
                           else show_res r)
        | ["parse"; sp] ->
            print_endline (show_res (parse_show (a_spellings (parse_arg sp))))
+       | [m; "copy_manager"; src; vo] ->
+           let m = nat_of_int (int_of_string m) in
+           let (w', r) = step_copy_manager !world m (a_nat (parse_arg src)) (a_list a_nat (parse_arg vo)) in
+           world := w';
+           print_endline (if !full then show_res r ^ "\t" ^ show_digest (digest (world2_get w' m))
+                          else show_res r)
+       | [m; "reduction"; src; vo; ord] ->
+           let m = nat_of_int (int_of_string m) in
+           let srcn = a_nat (parse_arg src) in
+           let (w', r) = step_reduction !world m srcn (a_list a_nat (parse_arg vo)) (a_list a_pos (parse_arg ord)) in
+           world := w';
+           print_endline (if !full then show_res r ^ "\t" ^ show_digest (digest (world2_get w' m))
+                                         ^ " | " ^ show_digest (digest (world2_get w' srcn))
+                          else show_res r)
        | [m; "assert_consistent"] when String.length m > 1 && m.[0] = 'a' ->
            let m = nat_of_int (int_of_string (String.sub m 1 (String.length m - 1))) in
            let (w', r) = astep_consistent !aworld m in
